@@ -45,6 +45,10 @@ type Closure struct {
 // (uint64 concrete, *Term of sort BV8, or *Term of sort Int in [0,255]).
 type ByteStr struct {
 	B []Value
+	// Num, when set, states that the whole string is the decimal rendering of
+	// Num in exactly len(B) digits (zero padded or with a non-zero leading
+	// digit). Two such strings of equal length compare like their numbers.
+	Num *Term
 }
 
 // OpaqueStr is a string whose content is not modelled; two opaque strings are
